@@ -167,6 +167,10 @@ def check_merge(fn, kind):
         bvars = [k for k, v in rec.entry.items() if not k.startswith('$') and v == B0]
         avars = [k for k, v in rec.entry.items() if not k.startswith('$') and v == A0]
         if not has_a:
+            # the state after a ran out, in a loop that tests its cursor (`while a is not None`): the loop must end here
+            if rec.kind == 'exh' and not nexts and not yields and not drains:
+                _check_end(m, rec, 'a exhausted')
+                continue
             raise Unknown('a pass starts without a current row of a')
         if isinstance(rel, tuple):
             raise Unknown('a comparison between %s and %s' % (rel[1][1], rel[1][2]))
@@ -227,8 +231,13 @@ def check_merge(fn, kind):
                 'once' if wb else 'not at all', nB))
         if a_exh or drained or (kind == 'intersection' and b_exh):
             if rec.kind == 'next':
-                raise _Bad(what + ', input exhausted', 'the loop goes on after %s ran out' % ('a' if a_exh else 'b'))
-            _check_end(m, rec, what + ', input exhausted')
+                # fine when the loop tests its cursor at the top and the state this pass leaves is one it ends in at once
+                succ = [r2 for r2 in m.records if r2.loop is rec.loop and r2.entry == rec.end]
+                if not (a_exh and succ and all(r2.kind == 'exh' and not [e for e in r2.eff if e[0] in ('yield', 'drain')]
+                                              and not [l for l in r2.log if l[0] == 'next'] for r2 in succ)):
+                    raise _Bad(what + ', input exhausted', 'the loop goes on after %s ran out' % ('a' if a_exh else 'b'))
+            else:
+                _check_end(m, rec, what + ', input exhausted')
         elif rec.kind != 'next':
             if rec.kind in ('stop', 'raise'):
                 _check_end(m, rec, what)
@@ -239,7 +248,7 @@ def check_merge(fn, kind):
             if still:
                 raise _Bad(what + ', b exhausted', '`%s` still holds the last row of b after b ran out: that row is matched again '
                            'on the next pass' % still[0])
-        if rec.kind == 'next':
+        if rec.kind == 'next' and not a_exh:
             lost = [k for k in avars if rec.end.get(k) not in (A0,)]
             if lost and not any(v == A0 for k, v in rec.end.items() if not k.startswith('$')):
                 raise _Bad(what, 'after the step no variable holds the current row of a')
